@@ -66,6 +66,26 @@ def run_case(case, ctx):
 		for suf in ('', '-wal', '-shm'):
 			shutil.copy(work + suf, gdb + suf)
 		con.close()
+	elif mode == 'hot_journal':
+		# a writer crashed in the middle of a transaction: a hot rollback journal lies beside a partly written genome file.
+		# Readers may refuse such a database, but a read-side command has no business rolling it back (= rewriting the file).
+		import sqlite3
+		pid = os.fork()
+		if pid == 0:
+			try:
+				con = sqlite3.connect(gdb, isolation_level=None)
+				con.execute('PRAGMA journal_mode=DELETE')
+				con.execute('PRAGMA cache_size=1')
+				con.execute('BEGIN IMMEDIATE')
+				con.execute("UPDATE genomes SET description = description || ' (half-written edit)'")
+				con.execute("UPDATE taxa SET name = name || ' (half-written edit)'")
+				con.execute('CREATE TABLE spill (x)')
+				con.executemany('INSERT INTO spill VALUES (?)', [('y' * 3000,) for _ in range(40)])
+			finally:
+				os._exit(0)
+		os.waitpid(pid, 0)
+		if not os.path.exists(gdb + '-journal'):
+			mode = 'default'
 	elif mode != 'default':
 		import sqlite3
 		con = sqlite3.connect(gdb)
@@ -325,7 +345,7 @@ def run_case(case, ctx):
 			except Exception:
 				pass
 		# final check after everything is closed
-	if mode in ('wal', 'wal_hot'):
+	if mode in ('wal', 'wal_hot', 'hot_journal'):
 		# connections leaked by the in-process command line are closed by the collector: SQLite checkpoints when the last one closes
 		import gc
 		gc.collect()
@@ -375,7 +395,7 @@ STEP = st.one_of(
 def gen_case(draw, tier):
 	w = draw(Wd.world(max_refs=4, min_refs=2, max_queries=3, min_queries=2, nasty_names=False))
 	steps = draw(st.lists(STEP, min_size=5, max_size=25))
-	return {'kind': 'history', 'world': w, 'steps': steps, 'gdb_mode': draw(st.sampled_from(['default', 'wal', 'default', 'persist', 'vacuum_pagesize', 'wal', 'user_version', 'old_layout', 'extra_objects', 'wal_hot']))}
+	return {'kind': 'history', 'world': w, 'steps': steps, 'gdb_mode': draw(st.sampled_from(['default', 'wal', 'default', 'persist', 'vacuum_pagesize', 'wal', 'user_version', 'old_layout', 'extra_objects', 'wal_hot', 'hot_journal']))}
 
 
 def strategy(tier):
